@@ -33,7 +33,7 @@ RULE = (
     "around 'record offer; call writer' defines the offered order); a failure mask over the wrapped destination's calls; a "
     "gate on the wrapped destination with which the case decides how many messages have been written when stopService is "
     "called (0..all) and releases the rest in generated steps; optionally a pause right after the service is marked "
-    "stopped. Oracle: the wrapped destination is offered exactly the offered sequence, in order, each once, on one thread "
+    "stopped, optionally the freshly started writer thread is not scheduled until stop has been requested. Oracle: the wrapped destination is offered exactly the offered sequence, in order, each once, on one thread "
     "per cycle that is none of the callers; producers finish while the gate is closed (logging does not wait for output); "
     "the object returned by stopService completes only after the last offered message was passed on, for every gate "
     "position, and does complete once the gate opens; a masked failure loses only that call; after stop nothing more "
@@ -79,6 +79,25 @@ class Reactor(object):
 
 class DestFault(Exception):
     pass
+
+
+class _GatedThreading(object):
+    """Stands in for the `threading` module inside eliot.logwriter: new threads do not run until released."""
+
+    def __init__(self):
+        self.gate = threading.Event()
+        self.gate.set()
+        outer = self
+
+        class Thread(threading.Thread):
+            def run(self):
+                outer.gate.wait(10)
+                threading.Thread.run(self)
+
+        self.Thread = Thread
+
+    def __getattr__(self, name):
+        return getattr(threading, name)
 
 
 class GatedDest(object):
@@ -134,10 +153,20 @@ def check(case):
     info = {"cycles": 0, "queued_at_stop": 0, "failures_followed": 0, "producers": 0}
     main_ident = threading.get_ident()
     Service._verif_pause_after_stop = 0.0
+    from eliot import logwriter as _lw
+
+    gated = _GatedThreading()
+    saved_threading = _lw.threading
+    _lw.threading = gated
     try:
         for cyc in case["cycles"]:
             info["cycles"] += 1
             base = len(total_offered)
+            hold_reader = bool(cyc.get("hold_reader"))
+            if hold_reader:
+                # the freshly started writer thread is not scheduled until after stop was requested
+                gated.gate.clear()
+                info["reader_held"] = info.get("reader_held", 0) + 1
             writer.startService()
             offered = []
             order = threading.Lock()
@@ -155,7 +184,7 @@ def check(case):
             info["producers"] = max(info["producers"], len(threads))
             # the gate: how many messages may be written before stop is requested
             n_msgs = sum(cyc["producers"])
-            gate0 = min(cyc["written_before_stop"], n_msgs)
+            gate0 = 0 if hold_reader else min(cyc["written_before_stop"], n_msgs)
             dest.allow(base + gate0)
             for t in threads:
                 t.start()
@@ -178,6 +207,14 @@ def check(case):
                 Service._verif_pause_after_stop = 0.35
             d = writer.stopService()
             Service._verif_pause_after_stop = 0.0
+            if hold_reader:
+                time.sleep(0.01)
+                require(
+                    not d.called or n_msgs == 0,
+                    "stop-completed-early",
+                    lambda: "stopService completed while the writer thread had not run yet and %d offered messages were unwritten" % n_msgs,
+                )
+                gated.gate.set()
             require(hasattr(d, "wait"), "harness", "stopService did not return the deferred of the stand-in")
             # release the rest in steps; the deferred must not fire before everything was passed on
             released = gate0
@@ -220,6 +257,8 @@ def check(case):
             fails = [k for k in dest.mask if base <= k < len(dest.received) - 1]
             info["failures_followed"] += len(fails)
     finally:
+        gated.gate.set()
+        _lw.threading = saved_threading
         Service._verif_pause_after_stop = 0.0
         dest.closed_forever = True
         dest.allow(10**9)
@@ -263,17 +302,20 @@ def classify(case, info):
         labels.append("failure-followed-by-messages")
     if any(c.get("pause") for c in case["cycles"]):
         labels.append("pause-after-marked-stopped")
+    if info.get("reader_held"):
+        labels.append("writer-thread-start-delayed")
     nontrivial = bool(info["queued_at_stop"] or info["failures_followed"] or info["producers"] >= 2)
     return nontrivial, labels
 
 
 def strategy():
     cycle = st.builds(
-        lambda producers, wbs, steps, pause: {"producers": producers, "written_before_stop": wbs, "release_steps": steps, "pause": pause},
+        lambda producers, wbs, steps, pause, hold: {"producers": producers, "written_before_stop": wbs, "release_steps": steps, "pause": pause, "hold_reader": hold},
         st.lists(st.integers(0, 30), min_size=1, max_size=3),
         st.integers(0, 40),
         st.lists(st.integers(1, 20), max_size=3),
         st.sampled_from([False, False, False, False, False, True]),
+        st.sampled_from([False, False, False, True]),
     )
     return st.builds(
         lambda mask, cycles: {"mask": sorted(set(mask)), "cycles": cycles},
